@@ -52,6 +52,17 @@ def events(src, n):
     if exc == "none":
         ev["res"] = ab.cfg(R)
     yield ev
+    if len(str(pre)) % 3 == 0:
+        # the optional flag: verbose=True prints the intermediate grammars and must not change the result
+        import contextlib
+        import io
+        with contextlib.redirect_stdout(io.StringIO()):
+            R, exc = guarded(lambda: ca.cfg_to_chomsky(G0, verbose=True), 20)
+        ev = {"op": "to_chomsky", "via": "cfg_to_chomsky/verbose", "full": True, "pre": pre, "post": ab.cfg(G0), "exc": exc,
+              "n": n, "src": dict(src, n=n)}
+        if exc == "none":
+            ev["res"] = ab.cfg(R)
+        yield ev
     for k in (2, 3, 5):
         hint = "S" if k != 3 else "T"
         R, exc = guarded(lambda: cfg_apply_chomsky(G0, k, hint), 20)
